@@ -305,6 +305,9 @@ def apply_op(r, op, p, q, is_ih5=True):
         if op == "create_dataset":
             d = r.create_dataset(p, data=NEWV)
             return ("ok", d.name)
+        if op == "setitem_none":  # a value no tree accepts: fails everywhere and must not change anything
+            r[p] = None
+            return ("ok", None)
         if op == "delitem":
             del r[p]
             return ("ok", None)
